@@ -134,7 +134,7 @@ SplineChecks(e, s) ==
 \* the oracle: value matrix, body velocity, body acceleration of window i (0-based) at offset u
 EvalWin(s, i, u) ==
   LET g == s.g  k == s.K  d == Dim(g)
-      c0 == BasisCumT(k, u, 0)  c1 == BasisCumT(k, u, 1)  c2 == BasisCumT(k, u, 2)
+      c3 == BasisCum3T(k, u)  c0 == c3[1]  c1 == c3[2]  c2 == c3[3]
       b0 == RForce([j \in 1..k |-> RRound(c0[j], 200)])
       b1 == RForce([j \in 1..k |-> RRound(c1[j], 200)])
       b2 == RForce([j \in 1..k |-> RRound(c2[j], 200)])
